@@ -3,7 +3,8 @@
 
   The helper lemmas live in
     Proofs/C01Basic.lean   connectives, the candidate loop, the unconditional laws
-    Proofs/C01Values.lean  induction on values, hereditary predicates, Python `==` vs BSON equality
+    Proofs/C01Values.lean  induction on values, hereditary predicates, path traversal against
+                           `reach`, Python `==` vs BSON equality
     Proofs/C01Leaf.lean    each leaf test of the matcher against the oracle's leaf predicate
     Proofs/C01Cond.lean    one condition `path: c` of D
     Proofs/C01Main.lean    induction on the filter
@@ -43,6 +44,10 @@ theorem not_eq_neg (key : String) (gs : Fields) (d : Val) (cs : List (Option Val
 theorem null_eq_missing (key : String) (d : Val) (h : candsKey key d = .ok [none]) :
     applyKey .null key d = .ok true :=
   C01Lemmas.null_eq_missing key d h
+
+theorem cands_eq_reach (ps : List String) (d : Val) (cs : List (Option Val))
+    (h : cands ps d = .ok cs) : cs = reach ps d :=
+  C01Lemmas.cands_eq_reach ps d cs h
 
 theorem matches_eq_spec (f d : Val) (h : inD f d = true) :
     filterApplies f d = specMatches f d :=
